@@ -295,3 +295,15 @@ def _lp_setup(ex, frame):
 LOGICAL_PARSE.setup = staticmethod(_lp_setup)
 LOGICAL_PARSE.requires = {"no_pending_union_errors": "len(context.tmp_errors) == 0", "no_errors_on_entry": "len(context.errors) == 0"}
 # the callee-side contracts of RuntimeContext used here
+
+LOGICAL_PARSE.clause_tags = {}
+for _lbl in list(_XOR) + list(_NOT) + list(_AND):
+    LOGICAL_PARSE.clause_tags[_lbl] = ["C09"]
+for _lbl in _UNION:
+    LOGICAL_PARSE.clause_tags[_lbl] = ["C09", "C03"]
+LOGICAL_PARSE.clause_tags["clean"] = ["C09", "C10"]
+LOGICAL_PARSE.clause_tags["only_raises"] = ["C04"]
+LOGICAL_PARSE.clause_tags["no_input_mutation"] = ["C19"]
+for _e, _d in list(_XOR_RAISES.items()) + list(_NOT_RAISES.items()) + list(_AND_RAISES.items()) + list(_UNION_RAISES.items()):
+    for _lbl in _d:
+        LOGICAL_PARSE.clause_tags["%s.%s" % (_e, _lbl)] = ["C09"]
